@@ -27,17 +27,21 @@ import vlib
 
 MODULES = ["Verif.C12.Theorems"]
 THEOREMS = [
-    "Verif.C12.less_spec",
     "Verif.C12.keep_any",
     "Verif.C12.keep_all",
+    "Verif.C12.kept_iff",
     "Verif.C12.out_nodup",
     "Verif.C12.builds_exact",
     "Verif.C12.builds_exact_uniform",
     "Verif.C12.out_unique",
+    "Verif.C12.output_congr",
     "Verif.C12.merge_comm",
     "Verif.C12.merge_idem",
+    "Verif.C12.merge_idem_mem",
+    "Verif.C12.less_spec",
     "Verif.C12.sortDiags_sorted_perm",
     "Verif.C12.runFromLintResult_last_wins",
+    "Verif.C12.old_comparator_witness",
 ]
 
 ANY, ALL = 0, 1
@@ -627,22 +631,23 @@ HOW = ("harness/cmd/c12gob: `echo '<job json>' | c12gob run -bin <staticcheck bu
 
 
 def run(ctx):
-    dev_skip = os.environ.get("C12_DEV_SKIP_LEAN") == "1"
-    if dev_skip:
-        lean_ok, lean_broke = True, {}
-        ctx.c12_model = False
-    else:
-        lean_ok, lean_broke = vlib.std_lean_phase(ctx, MODULES, THEOREMS)
-        if not os.path.exists(vlib.driver_path("C12")):
-            raise vlib.HarnessError("c12driver was not built: " + json.dumps(lean_broke)[:2000])
-        ctx.c12_model = True
+    import time
+    phase = {}
+    t = time.time()
+    lean_ok, lean_broke = vlib.std_lean_phase(ctx, MODULES, THEOREMS)
+    phase["lean_build_audit"] = round(time.time() - t, 1)
+    if not os.path.exists(vlib.driver_path("C12")):
+        raise vlib.HarnessError("c12driver was not built: " + json.dumps(lean_broke)[:2000])
+    ctx.c12_model = True
+    t = time.time()
     gob = vlib.build_harness(ctx, "c12gob")
     sc = vlib.build_repo_cmd(ctx, "./cmd/staticcheck")
+    phase["go_builds"] = round(time.time() - t, 1)
     if ctx.replay:
         return replay(ctx, gob, sc)
 
     rng = vlib.SplitMix(ctx.seed).fork("C12")
-    ncases, ngroups, nmods = (170, 8, 3) if ctx.quick else (4000, 10, 40)
+    ncases, ngroups, nmods = (80, 16, 3) if ctx.quick else (2000, 16, 40)
     corpus = [norm_runs(c) for c in CORPUS]
     cdir = os.path.join(vlib.VERIF, "corpus", "C12")
     if os.path.isdir(cdir):
@@ -651,9 +656,13 @@ def run(ctx):
                 corpus.append(norm_runs(json.load(open(os.path.join(cdir, fn)))["runs"]))
     gen = [gen_case(rng.fork("case%d" % i), ngroups) for i in range(ncases)]
 
+    t = time.time()
     f1, d1, s1 = check_crafted(ctx, gob, sc, corpus, rng.fork("corpusv"), "corpus")
     f2, d2, s2 = check_crafted(ctx, gob, sc, gen, rng.fork("genv"), "generated")
+    phase["crafted_merge"] = round(time.time() - t, 1)
+    t = time.time()
     f3, d3, s3, msamples = check_matrix(ctx, gob, sc, rng.fork("matrix"), nmods)
+    phase["matrix"] = round(time.time() - t, 1)
     fails, diffs = f1 + f2, d1 + d2 + d3
 
     hist = collections.Counter()
@@ -684,6 +693,7 @@ def run(ctx):
         "crafted_cases": len(corpus) + len(gen), "groups_per_case": ngroups,
         "histogram": dict(sorted(hist.items())),
         "matrix": dict(sorted(s3.items())),
+        "phase_seconds": phase,
         "samples": [{"input": enc_runs(c)[:600], "kept": show_ms(ms(text_proj(k, v) for k, v in expected(c).items()))[:8]}
                     for c in (corpus[:3] + gen[:2])] + msamples,
     })
